@@ -23,6 +23,10 @@ type enode struct {
 	kw    []string
 	star  bool
 	dstar bool
+	// starFirst: the *seq operand is written BEFORE the keyword arguments: f(a, *s, k=v).
+	// CPython 3.4 evaluates it after the keyword values, later versions in textual order;
+	// the keyword values themselves are always evaluated left to right.
+	starFirst bool
 }
 
 func leaf(v V) *enode { return &enode{kind: "leaf", val: v} }
@@ -85,12 +89,18 @@ func (n *enode) render(next *int) string {
 			args = append(args, n.kids[idx].render(next))
 			idx++
 		}
+		if n.star && n.starFirst {
+			// kids order stays: function, positionals, keyword values, star; only the text differs
+			args = append(args, "*"+p(n.kids[1+n.npos+len(n.kw)]))
+		}
 		for _, k := range n.kw {
 			args = append(args, k+"="+n.kids[idx].render(next))
 			idx++
 		}
-		if n.star {
+		if n.star && !n.starFirst {
 			args = append(args, "*"+p(n.kids[idx]))
+			idx++
+		} else if n.star {
 			idx++
 		}
 		if n.dstar {
@@ -133,6 +143,7 @@ type evalCtx struct {
 	log            []string
 	dictValueFirst bool
 	setCollapse    bool // a set display merged an int with an equal bool
+	starTextual    bool // f(a, *s, k=v): evaluate s where it is written (3.5+) instead of after the keywords (3.4)
 }
 
 // eval is the reference evaluator: it appends the labels of the leaves it evaluates.
@@ -244,6 +255,15 @@ func (n *enode) eval(c *evalCtx) (V, error) {
 			idx++
 		}
 		kws := map[string]V{}
+		var starV V
+		starDone := false
+		if n.star && n.starFirst && c.starTextual {
+			v, err := n.kids[1+n.npos+len(n.kw)].eval(c)
+			if err != nil {
+				return V{}, err
+			}
+			starV, starDone = v, true
+		}
 		for _, k := range n.kw {
 			v, err := n.kids[idx].eval(c)
 			if err != nil {
@@ -253,9 +273,13 @@ func (n *enode) eval(c *evalCtx) (V, error) {
 			idx++
 		}
 		if n.star {
-			v, err := n.kids[idx].eval(c)
-			if err != nil {
-				return V{}, err
+			v := starV
+			if !starDone {
+				var err error
+				v, err = n.kids[idx].eval(c)
+				if err != nil {
+					return V{}, err
+				}
 			}
 			idx++
 			if v.k != kTuple && v.k != kList {
@@ -403,7 +427,7 @@ func canonModel(v V) string {
 // ---- enumeration ----
 
 var c01Ints = []V{vInt(0), vInt(1), vInt(2)}
-var c01Any = []V{vInt(0), vInt(1), vInt(2), vInt(-1), vBool(true), vNone, vStr("ab")}
+var c01Any = []V{vInt(0), vInt(1), vInt(2), vInt(-1), vBool(true), vNone, vStr("ab"), vFloat(2.0), vFloat(2.5)}
 
 var c01BinAll = []string{"+", "-", "*", "/", "//", "%", "**", "<<", ">>", "&", "|", "^"}
 var c01CmpAll = []string{"<", "<=", "==", "!=", ">", ">=", "is", "is not", "in", "not in"}
@@ -502,6 +526,11 @@ func c01Depth1(vals []V, full bool) []*enode {
 						n.kids = append(n.kids, leaf(vTuple(vInt(8), vInt(9))))
 					}
 					out = append(out, n)
+					if star && len(kw) > 0 {
+						m := clone(n)
+						m.starFirst = true
+						out = append(out, m)
+					}
 				}
 			}
 		}
@@ -701,8 +730,8 @@ func (c *c01) checkExpr(t *enode, part string) {
 			res Res
 		}
 		var exps []exp
-		for _, vf := range []bool{false, true} {
-			ec := &evalCtx{dictValueFirst: vf}
+		for variant := 0; variant < 4; variant++ {
+			ec := &evalCtx{dictValueFirst: variant&1 == 1, starTextual: variant&2 == 2}
 			v, err := t.eval(ec)
 			if err == errUnknown {
 				rc.Count("outside_model", 1)
